@@ -1,0 +1,14 @@
+//go:build verif
+
+package client
+
+// VerifSetInterceptor installs f as the interceptor of the chain calls of an already built
+// client (nil removes it). Calls the interceptor does not handle go on to the client's
+// connection as usual (verification harness only).
+func (c *Client) VerifSetInterceptor(f VerifInterceptor) {
+	if f == nil {
+		verifInterceptors.Delete(c)
+		return
+	}
+	verifInterceptors.Store(c, f)
+}
